@@ -1,5 +1,5 @@
 /*UNIT
-{"props": ["C06"], "src": ["lib/ipc_setup.c"], "mode": "plain",
+{"props": ["C06", "C03"], "src": ["lib/ipc_setup.c"], "mode": "plain",
  "kind": "proved", "functions": ["qb_ipc_us_recv_msghdr"],
  "stubs": ["recvmsg (any count in [0, iov_len] or -1/errno; precondition: iovec and control buffer writable for their stated lengths)", "qb_sigpipe_ctl (no-op)"],
  "drops": ["qb_util_log/qb_util_perror diagnostics compiled out (stubs/nolog.h)"],
@@ -21,6 +21,7 @@ static void verif_recvmsg_hook(void *msg, unsigned long n);
 
 static struct ipc_auth_data *verif_data;
 static size_t verif_total;
+static int verif_last_read_was_zero;
 
 static void verif_recvmsg_hook(void *m, unsigned long n)
 {
@@ -33,7 +34,16 @@ static void verif_recvmsg_hook(void *m, unsigned long n)
 #else
 	int inside = base >= rec && base + msg->msg_iov[0].iov_len <= rec + verif_data->len;
 #endif
+	POST(!verif_last_read_was_zero, "handshake: after a zero-length read (the peer is gone) the receive gives up instead of reading again");
+	verif_last_read_was_zero = (n == 0);
 	POST(inside, "handshake: the receive iovec stays inside the fixed-size record");
+#ifdef VERIF_CBMC
+	POST(off == lo + verif_data->processed, "handshake: a resumed read continues exactly where the previous one stopped");
+#else
+	POST(base == rec + verif_data->processed, "handshake: a resumed read continues exactly where the previous one stopped");
+#endif
+	POST(msg->msg_iov[0].iov_len <= verif_data->len - verif_data->processed, "handshake: a resumed read asks for no more than the rest of the record");
+	COVER(verif_data->processed > 0 && msg->msg_iov[0].iov_len == verif_data->len - verif_data->processed);
 	POST(verif_data->processed < verif_data->len, "handshake: every further pass starts with less than the whole record received");
 	if (verif_recvmsg_calls >= 2) {
 		/* induction cut: this is again an arbitrary state satisfying Inv */
@@ -49,6 +59,7 @@ void harness(void)
 	size_t len = sizeof(struct qb_ipc_connection_request);
 
 	verif_os_ipc_reset();
+	verif_last_read_was_zero = 0;
 	verif_total = 0;
 	data = calloc(1, sizeof(*data));
 	ASSUME(data != NULL);
